@@ -23,7 +23,7 @@ def showCursor : Option (Nat × Nat) → String
   | none => "end"
   | some a => showAddr a
 
-def sortNats (l : List Nat) : List Nat := l.mergeSort (· ≤ ·)
+def elistSortNats (l : List Nat) : List Nat := l.mergeSort (· ≤ ·)
 
 def elistStep (s : EListState) (o : OpLine) : EListState × String :=
   match o.name with
@@ -47,7 +47,7 @@ def elistStep (s : EListState) (o : OpLine) : EListState × String :=
       let shards := (s.shards.zipIdx).map fun p => (p.2, p.1.db)
       let (items, next) := engList shards count cur
       let j := if items.isEmpty then "-" else String.intercalate ","
-        (items.map fun it => showAddr it.addr ++ "@" ++ String.intercalate "+" ((sortNats it.holders).map toString))
+        (items.map fun it => showAddr it.addr ++ "@" ++ String.intercalate "+" ((elistSortNats it.holders).map toString))
       (s, s!"=> page={j} next={showCursor next}")
     | _, _ => (s, "=> bad-op")
   | _ =>
